@@ -130,11 +130,13 @@ static unsigned char *set_one_octet(OSSL_PARAM_BLD *build,
 {
 	unsigned char *bin;
 	const char *str;
-	int len;
+	int len = 0;
 
 	/* decode it */
 	str = json_string_value(val);
 	bin = jwt_base64uri_decode(str, &len);
+	if (bin == NULL)
+		return NULL;
 
 	OSSL_PARAM_BLD_push_octet_string(build, ossl_name, bin, len);
 
